@@ -348,6 +348,7 @@ func c13(r *core.Run) {
 			return ok
 		}
 		n, sorts, searches := 0, 0, 0
+		pkgFuncs := p.PkgFuncs(hashPkg)
 		// by role: the closures handed to sort.Slice (comparator) and sort.Search (predicate) anywhere in the package
 		for _, f := range p.PkgFuncs(hashPkg) {
 			for _, c := range core.Calls(f, core.CallTo("sort.Slice", "sort.SliceStable", "sort.Search")) {
@@ -364,8 +365,11 @@ func c13(r *core.Run) {
 					}
 					n++
 					searches++
-					geq := core.Cmp(token.GEQ, keyAt(nthParam(an, 0)), isFree)
-					for _, ret := range core.Returns(an) {
+					// the predicate as written, or what it means once the values it compares are resolved
+					// by role (bound method value, struct that carries keys and hash, forwarding: c13_pred.go)
+					pf, ctx := c13Predicate(pkgFuncs, mc)
+					geq := core.AnyOf(core.Cmp(token.GEQ, keyAt(nthParam(an, 0)), isFree), core.Cmp(token.GEQ, ctx.isKeyAt(0), ctx.isInv))
+					for _, ret := range core.Returns(pf) {
 						if m, pos := geq(core.Result(ret, 0)); !m || !pos {
 							o.Fail(p.InstrPos(ret), "%s: search predicate is not keys[i] >= hash", core.FuncName(f))
 						}
@@ -377,8 +381,9 @@ func c13(r *core.Run) {
 				}
 				n++
 				sorts++
-				less := core.Cmp(token.LSS, keyAt(nthParam(an, 0)), keyAt(nthParam(an, 1)))
-				for _, ret := range core.Returns(an) {
+				pf, ctx := c13Predicate(pkgFuncs, mc)
+				less := core.AnyOf(core.Cmp(token.LSS, keyAt(nthParam(an, 0)), keyAt(nthParam(an, 1))), core.Cmp(token.LSS, ctx.isKeyAt(0), ctx.isKeyAt(1)))
+				for _, ret := range core.Returns(pf) {
 					if m, pos := less(core.Result(ret, 0)); !m || !pos {
 						o.Fail(p.InstrPos(ret), "sort comparator is not keys[i] < keys[j] (ring would not be ascending)")
 					}
